@@ -18,15 +18,16 @@
       itself returns false only when a context is in the error state at entry.
     - [zero_chunk]: seek, then zero blocks through [write_data]; the flag becomes -1 only
       when all of it succeeded.
-    Schedules: reads of the source, writes of the target, seeks of the source, seeks of the
-    target.  Empty schedules are the fault-free run. *)
+    Schedules: reads (all on the source), writes (all on the target), lseeks (both files, in
+    call order: per chunk source, target, and the target again for [zero_chunk]).  Empty
+    schedules are the fault-free run. *)
 From ZV Require Import Base.Bytes Gen.GenConsts Format.Header Read.Scan Dl.Copy Io.Faults Io.ScanFaults.
 Local Open Scope N_scope.
 
 Record cst := mkC {
-  k_rs : list rout; k_ws : list wout; k_ss : list bool; k_ts : list bool;
+  k_rs : list rout; k_ws : list wout; k_ss : list bool;
   k_serr : bool; k_terr : bool }.
-Definition clean : cst := mkC [] [] [] [] false false.
+Definition clean : cst := mkC [] [] [] false false.
 
 (** [zero_chunk]'s write loop: success?, file, schedule left *)
 Fixpoint zero_blocks_f (fuel : nat) (ws : list wout) (tf : bytes) (pos n : N) : option (bool * bytes * list wout) :=
@@ -73,29 +74,29 @@ Definition write_and_verify_f (sh : header) (sf : bytes) (th : header) (tf : byt
   : option (bytes * option Z * cst) :=
   if k_serr st || k_terr st then Some (tf, None, st) else
   match seek_f false (k_ss st) with
-  | (false, _, ss', _) => Some (tf, None, mkC (k_rs st) (k_ws st) ss' (k_ts st) true false)
-  | (true, _, ss', _) =>
-    match seek_f false (k_ts st) with
-    | (false, _, ts', _) => Some (tf, None, mkC (k_rs st) (k_ws st) ss' ts' false true)
-    | (true, _, ts', _) =>
+  | (false, _, ss1, _) => Some (tf, None, mkC (k_rs st) (k_ws st) ss1 true false)
+  | (true, _, ss1, _) =>
+    match seek_f false ss1 with
+    | (false, _, ss2, _) => Some (tf, None, mkC (k_rs st) (k_ws st) ss2 false true)
+    | (true, _, ss2, _) =>
       let srest := seek sf (data_offset sh + c_start sc) in
       match copy_blocks_f (S (length srest) + N.to_nat (c_clen sc / BUF_SIZE)) (k_rs st) (k_ws st) false
                           srest tf (data_offset th + c_start tc) (c_clen sc)
                           (repeat 0 (N.to_nat BUF_SIZE)) [] with
       | None => None
-      | Some (false, tf', _, rs', ws', se, te) => Some (tf', None, mkC rs' ws' ss' ts' se te)
+      | Some (false, tf', _, rs', ws', se, te) => Some (tf', None, mkC rs' ws' ss2 se te)
       | Some (true, tf', acc, rs', ws', se, _) =>
           if memcmp_eq (ds_of (h_chash sh)) (H (h_chash sh) acc) (c_digest sc)
-          then Some (tf', Some 1%Z, mkC rs' ws' ss' ts' se false)
+          then Some (tf', Some 1%Z, mkC rs' ws' ss2 se false)
           else (* zero_chunk(tgt, tgt_idx) *)
-            match seek_f false ts' with
-            | (false, _, ts'', _) => Some (tf', None, mkC rs' ws' ss' ts'' se true)
-            | (true, _, ts'', _) =>
+            match seek_f false ss2 with
+            | (false, _, ss3, _) => Some (tf', None, mkC rs' ws' ss3 se true)
+            | (true, _, ss3, _) =>
                 match zero_blocks_f (S (N.to_nat (c_clen tc / BUF_SIZE))) ws' tf'
                                     (data_offset th + c_start tc) (c_clen tc) with
                 | None => None
-                | Some (true, tf'', ws'') => Some (tf'', Some (-1)%Z, mkC rs' ws'' ss' ts'' se false)
-                | Some (false, tf'', ws'') => Some (tf'', None, mkC rs' ws'' ss' ts'' se true)
+                | Some (true, tf'', ws'') => Some (tf'', Some (-1)%Z, mkC rs' ws'' ss3 se false)
+                | Some (false, tf'', ws'') => Some (tf'', None, mkC rs' ws'' ss3 se true)
                 end
             end
       end
